@@ -86,6 +86,7 @@ class Report:
         self.tier = tier
         self.quiet = quiet
         self.selftest: Optional[Dict[str, Any]] = None
+        self.tree_changed = False
         self.t0 = time.time()
         self.rules: Dict[str, Rule] = {}
         self.known: Dict[tuple, Dict[str, Any]] = {}
@@ -127,6 +128,18 @@ class Report:
         # a rule that found fewer sites than confirmed by hand is analysis-broken - unless it already reports a violation
         # (a rule that stops at the first construct it cannot analyse has few instances and one honest finding)
         vacuous = [r for r in self.rules.values() if len(r.instances) < r.min_instances and not any(i.verdict == "violation" for i in r.instances)]
+        if self.quiet and not getattr(self, "tree_changed", False):
+            self.violations = viol
+            self.vacuous = vacuous
+            return 1 if viol else 0
+        if vacuous and getattr(self, "tree_changed", False):
+            # an edited tree on which a rule finds fewer sites than were confirmed by hand: the sites were removed or rewritten
+            # beyond recognition - a violation naming the rule (fail-closed), not a broken analysis
+            for r in vacuous:
+                r.violation("pdfminer:0", "anchor", f"{r.rid}: only {len(r.instances)} of the {r.min_instances} reviewed sites found", "the constructs this rule was confirmed on are gone from the edited tree; the clause cannot be re-confirmed")
+            all_inst = [i for r in self.rules.values() for i in r.instances]
+            viol = [i for i in all_inst if i.verdict == "violation"]
+            vacuous = []
         if self.quiet:
             self.violations = viol
             self.vacuous = vacuous
